@@ -60,15 +60,17 @@ class Ctx:
         if not self.div_lemmas or not z3.is_expr(e):
             return
         stack = [e]
-        seen = self._seen_ids
+        seen = set()        # per call: AST ids of dead terms may be recycled
         while stack:
             t = stack.pop()
             i = t.get_id()
             if i in seen:
                 continue
             seen.add(i)
-            lem = self.div_lemmas.pop(i, None)
-            if lem is not None:
+            ent = self.div_lemmas.pop(i, None)
+            if ent is not None:
+                lem = ent[1]
+                self._keep.append(ent[0])
                 self.solver.add(lem)
                 self.model = None
                 stack.append(lem)
@@ -104,6 +106,8 @@ class Ctx:
     def decide(self, e):
         if isinstance(e, bool):
             return e
+        if self.div_lemmas:
+            self.activate(e)
         e = z3.simplify(e)
         if z3.is_true(e):
             return True
@@ -490,7 +494,7 @@ class SymNum:
             neg = z3.And((q <= 1) == (num >= den), (q >= 1) == (num <= den), (q >= 0) == (num <= 0), (q <= 0) == (num >= 0),
                          (q <= -1) == (num >= -den))
             # lemmas are activated lazily, when q first occurs in a decision or an obligation (see Ctx.activate)
-            c.div_lemmas[q.get_id()] = z3.And(z3.Implies(den > 0, pos), z3.Implies(den < 0, neg))
+            c.div_lemmas[q.get_id()] = (q, z3.And(z3.Implies(den > 0, pos), z3.Implies(den < 0, neg)))
         return self._mk(q, o, isint=False)
 
     def __truediv__(self, o):
